@@ -22,7 +22,7 @@ from vsim.runner import InvalidScenario
 NAME = 'E-GROUP'
 CRASHY = False
 RUN_TIMEOUT = 300
-NO_SHRINK = {'program', 'dim'}
+NO_SHRINK = {'program', 'prog', 'dim'}
 POOL_SEED = 20250927
 NPROG = {'quick': 10, 'thorough': 120}
 
@@ -157,7 +157,7 @@ def _scenario(t, pid, sim_override=None):
         arrays[name] = dict(pts=pts, nreal=n, h=t.choice([0.06, 0.09, 0.13]), c_start=t.choice([0, 1, 2]),
                             c_stop=t.choice([2, 3, 4, 8, 30]))
     nconv = sum(1 for g in _all_groups(prog) for e in g['eqs'] if e[0] == 'TConv')
-    return dict(program=pid, dim=dim, arrays=arrays, cond=[int(t.bool(0.7)) for _ in range(24)],
+    return dict(program=pid, prog=prog, dim=dim, arrays=arrays, cond=[int(t.bool(0.7)) for _ in range(24)],
                 thresh=[t.choice([0.0, 300000.0, 700000.0, 950000.0, 999000.0, 2000000.0]) for _ in range(max(1, nconv))],
                 t=t.choice([0.0, 0.125, 0.5, 1.0]), dt=t.choice([0.0625, 0.125, 0.25]), dx=t.choice([0.0, 0.02, 0.05]),
                 periodic=int(t.bool(0.3)),
@@ -502,7 +502,9 @@ def execute(sc, prop):
         assert 0 <= pid < 100000 and dim in (1, 2) and 0 <= dx <= 0.1
     except Exception as e:
         raise InvalidScenario(repr(e))
-    prog = program(pid)
+    prog = sc.get('prog') or program(pid)
+    if not (isinstance(prog, dict) and isinstance(prog.get('groups'), list) and isinstance(prog.get('arrays'), list)):
+        raise InvalidScenario('program spec')
     viol = []
     probes = {}
 
